@@ -77,6 +77,7 @@ type Frame struct {
 	visits    map[int]int // loop bound: block index -> visits
 	symAtLoop map[int]int
 	results   Value
+	post      func(s *State, rv Value) Value // result post-processing (reflect.Value.Call)
 }
 
 func (f *Frame) clone() *Frame {
